@@ -1,6 +1,7 @@
 """C10 - label-based access addresses exactly the labelled periods."""
 from contracts.c10_labels import CONTRACTS as LABEL_CONTRACTS
 from props.containers_bounded import LabelAccess
+from verif.crosscheck import TARGETS as _XT, EncoderCrossCheck
 from verif.spec import PropertySpec
 
 PROPERTY = PropertySpec(
@@ -15,3 +16,5 @@ PROPERTY = PropertySpec(
     technique='contract-based deductive verification (pyvc + z3) of the label/slice resolution; bounded conformance of the look-up contract per span type',
     design_ref='DESIGN.md section 10 / C10',
 )
+
+PROPERTY.bounded.append(EncoderCrossCheck(_XT['C10']))
